@@ -87,6 +87,8 @@ def ast_atoms(t, positive=True):
     parts; a conjunction taken false establishes nothing about its parts (it stays one opaque fact)."""
     if isinstance(t, ast.UnaryOp) and isinstance(t.op, ast.Not):
         return ast_atoms(t.operand, not positive)
+    if isinstance(t, ast.NamedExpr):
+        return ast_atoms(t.value, positive)   # `(x := E)` is tested for what E is
     if isinstance(t, ast.BoolOp):
         if (isinstance(t.op, ast.And) and positive) or (isinstance(t.op, ast.Or) and not positive):
             out = []
@@ -100,6 +102,8 @@ def ast_atoms(t, positive=True):
             l, r = r, l
         if A.is_none(r):
             is_ = isinstance(t.ops[0], (ast.Is, ast.Eq))
+            if isinstance(l, ast.NamedExpr):
+                l = l.value
             return [("none", l, positive if is_ else not positive)]
     return [("truth", t, positive)]
 
@@ -142,6 +146,59 @@ def is_calling_frame(fa):
     def f(e, n):
         return fa.xnorm(e, n) == FRAME
     return f
+
+
+def single_item(e):
+    """x for a one-element list / tuple display [x] / (x,)."""
+    if isinstance(e, (ast.List, ast.Tuple)) and len(e.elts) == 1 and not isinstance(e.elts[0], ast.Starred):
+        return e.elts[0]
+    return None
+
+
+class Push:
+    """One place that puts exactly one more element at the end of a list: `r.append(x)`, `r += [x]`, `r.extend([x])`,
+    `r.insert(len(r), x)`.  node = the call / the augmented assignment (what obligations are keyed on and where the
+    CFG evaluates it), recv = the list expression, elem = the element expression."""
+    __slots__ = ("node", "recv", "elem")
+
+    def __init__(self, node, recv, elem):
+        self.node, self.recv, self.elem = node, recv, elem
+
+
+def pushes(fa, name=None):
+    """Every Push of the function (on the local list `name`, when given)."""
+    out = []
+    for c in fa.calls():
+        f = c.func
+        if not isinstance(f, ast.Attribute) or c.keywords or any(isinstance(a, ast.Starred) for a in c.args):
+            continue
+        if f.attr == "append" and len(c.args) == 1:
+            out.append(Push(c, f.value, c.args[0]))
+        elif f.attr == "extend" and len(c.args) == 1 and single_item(c.args[0]) is not None:
+            out.append(Push(c, f.value, single_item(c.args[0])))
+        elif f.attr == "insert" and len(c.args) == 2 and isinstance(c.args[0], ast.Call) and isinstance(c.args[0].func, ast.Name) \
+                and c.args[0].func.id == "len" and len(c.args[0].args) == 1 and A.norm(c.args[0].args[0]) == A.norm(f.value):
+            out.append(Push(c, f.value, c.args[1]))
+    for st in fa.stmts(ast.AugAssign):
+        if isinstance(st.op, ast.Add) and single_item(st.value) is not None:
+            out.append(Push(st, st.target, single_item(st.value)))
+    if name is not None:
+        out = [p for p in out if A.dotted(p.recv) == name]
+    return [p for p in out if fa.nodes(p.node)]
+
+
+def other_edits(fa, name):
+    """Statements that change the local list `name` otherwise than by one Push: other method calls that edit a list,
+    `name += <several>`, stores into / deletions of its slots."""
+    own = {id(p.node) for p in pushes(fa, name)}
+    out = [c for c in fa.calls() if A.dotted(A.call_recv(c)) == name and id(c) not in own and A.call_attr(c) in MUTATORS + ("append",)]
+    for st in fa.stmts((ast.Assign, ast.AugAssign, ast.Delete)):
+        if isinstance(st, ast.AugAssign) and A.dotted(st.target) == name and id(st) not in own:
+            out.append(st)
+        for t in (st.targets if isinstance(st, (ast.Assign, ast.Delete)) else [st.target]):
+            if isinstance(t, ast.Subscript) and A.dotted(t.value) == name:
+                out.append(st)
+    return out
 
 
 def all_defs(fa, name):
@@ -427,28 +484,23 @@ def per_element(seqs, expr, at, _depth=0):
     name = e.id
     if len(all_defs(fa, name)) != 1 or name in fa.df.params:
         return None
-    touched = [c for c in fa.calls() if A.dotted(A.call_recv(c)) == name]
-    if any(A.call_attr(c) != "append" for c in touched):
+    if other_edits(fa, name):
         return None
-    if any(isinstance(s, (ast.Assign, ast.AugAssign, ast.Delete)) and any(
-            isinstance(t, ast.Subscript) and A.dotted(t.value) == name for t in (s.targets if isinstance(s, (ast.Assign, ast.Delete)) else [s.target]))
-            for s in fa.stmts((ast.Assign, ast.AugAssign, ast.Delete))):
-        return None
-    apps = [c for c in touched if len(c.args) == 1 and fa.nodes(c)]
+    apps = pushes(fa, name)
     loops = position_loops(fa, seqs)
-    homes = {id(enclosing_position(fa, loops, c)[0]) if enclosing_position(fa, loops, c) else None for c in apps}
+    homes = {id(enclosing_position(fa, loops, c.node)[0]) if enclosing_position(fa, loops, c.node) else None for c in apps}
     if not apps or len(homes) != 1 or None in homes:
         return None
-    loop, p = enclosing_position(fa, loops, apps[0])
+    loop, p = enclosing_position(fa, loops, apps[0].node)
     if fa.enclosing(loop, (ast.For, ast.While)) is not None:
         return None
     use_stmt = fa.cfg.node(at).ast
     if use_stmt is not None and fa.inside(use_stmt, loop):
         return None
-    skip, twice = iteration_counts(fa, heads_of(fa, loop), fa.nodes_all(apps))
+    skip, twice = iteration_counts(fa, heads_of(fa, loop), fa.nodes_all(c.node for c in apps))
     if skip or twice:
         return None
-    return [(c.args[0], fa.nodes(c)[0], p) for c in apps]
+    return [(c.elem, fa.nodes(c.node)[0], p) for c in apps]
 
 
 # =================================================================================================
@@ -457,7 +509,7 @@ def per_element(seqs, expr, at, _depth=0):
 
 def _one_append_per_iteration(ck, fa: FA, loop_ast, list_name, rule, tag):
     """Every path loop-head(T) -> loop-head performs exactly one <list_name>.append."""
-    apps = [c for c in fa.calls("append") if A.dotted(A.call_recv(c)) == list_name and fa.inside(c, loop_ast)]
+    apps = [c.node for c in pushes(fa, list_name) if fa.inside(c.node, loop_ast)]
     miss, twice = iteration_counts(fa, heads_of(fa, loop_ast), fa.nodes_all(apps))
     ck.paths_enumerated += 1
     ck.ob(rule, fa.key(loop_ast, tag + "-at-least-one"), not miss and bool(apps),
@@ -532,9 +584,8 @@ def batch_seqs(br):
 def _fill_sites(fa, res_name):
     """[(statement node ids, value expression)] for every statement that puts a value into the result list."""
     out = []
-    for c in fa.calls("append"):
-        if A.dotted(A.call_recv(c)) == res_name and len(c.args) == 1 and fa.nodes(c):
-            out.append((fa.nodes(c), c.args[0]))
+    for c in pushes(fa, res_name):
+        out.append((fa.nodes(c.node), c.elem))
     for st in fa.stmts(ast.Assign):
         if any(isinstance(t, ast.Subscript) and A.dotted(t.value) == res_name for t in st.targets) and fa.nodes(st):
             out.append((fa.nodes(st), st.value))
@@ -550,7 +601,7 @@ def result_name(fa):
 
 def result_loops(fa, ploops, res_name, also=()):
     """The outermost position loops that put values into the result list (or contain one of the `also` nodes)."""
-    marks = [c for c in fa.calls("append") if A.dotted(A.call_recv(c)) == res_name]
+    marks = [c.node for c in pushes(fa, res_name)]
     marks += [st for st in fa.stmts(ast.Assign) if any(isinstance(t, ast.Subscript) and A.dotted(t.value) == res_name for t in st.targets)]
     marks += list(also)
     return [(l, p) for (l, p) in ploops if fa.enclosing(l, ast.For) is None and any(fa.inside(m, l) for m in marks)]
@@ -579,14 +630,14 @@ def check_slots(ck, R1):
     else:
         # indexed form: every iteration assigns its slot or hands the element on unchanged; an
         # element that is deferred must be filled by a later loop at its own position (checked above)
-        appends = [c for c in br.calls("append") if A.dotted(A.call_recv(c)) == RES]
+        appends = pushes(br, RES)
         ck.ob(R1, br.key(loop_ast, "batch-no-mixed-forms"), not appends, "slots are filled by index only" if not appends else
               "results are filled both by index and by append", br.where(loop_ast))
     rets = br.returns()
     okr = len(rets) == 1 and isinstance(rets[0].value, ast.Name)
     ck.ob(R1, br.key(None, "returned-as-is"), okr, "results are returned unfiltered, in slot order" if okr else
           "batch_run does not return the plain results list", br.where())
-    muts = [c for c in br.calls() if A.dotted(A.call_recv(c)) == RES and A.call_attr(c) in MUTATORS]
+    muts = [c for c in other_edits(br, RES) if isinstance(c, ast.Call) or isinstance(c, ast.AugAssign)]
     ck.ob(R1, br.key(None, "no-reordering"), not muts, "results is only filled, never reordered" if not muts else
           "results is reordered or edited (%s)" % A.short(muts[0], 40), br.where(muts[0] if muts else None))
     # the element handler turns an exception (of any class) into that element's slot: from the `except Exception`
@@ -636,10 +687,7 @@ class GapSeqs(Seqs):
         fa = self.fa
         if not isinstance(e, ast.Name) or e.id in fa.df.params or len(all_defs(fa, e.id)) != 1:
             return False
-        if any(A.dotted(A.call_recv(c)) == e.id and A.call_attr(c) in MUTATORS + ("append",) for c in fa.calls()):
-            return False
-        if any(isinstance(t, ast.Subscript) and A.dotted(t.value) == e.id for st in fa.stmts((ast.Assign, ast.AugAssign, ast.Delete))
-               for t in (st.targets if isinstance(st, (ast.Assign, ast.Delete)) else [st.target])):
+        if pushes(fa, e.id) or other_edits(fa, e.id):
             return False
         v, vat = bound_value(fa, e, at)
         if not (isinstance(v, ast.ListComp) and len(v.generators) == 1 and len(v.generators[0].ifs) == 1):
@@ -789,18 +837,18 @@ def _check_merge(ck, R1):
         elif isinstance(qf, ast.List) and not qf.elts and isinstance(c.args[0], ast.Name):
             # filled by a loop: appended to exactly on the misses of a position loop, with the input element
             name = c.args[0].id
-            touched = [x for x in gm.calls() if A.dotted(A.call_recv(x)) == name]
-            apps = [x for x in touched if A.call_attr(x) == "append" and len(x.args) == 1 and gm.nodes(x)]
-            homes = [enclosing_position(gm, ploops, x) for x in apps]
-            okq = bool(apps) and len(apps) == len(touched) and all(h is not None and h[0] is homes[0][0] for h in homes)
+            apps = pushes(gm, name)
+            homes = [enclosing_position(gm, ploops, x.node) for x in apps]
+            okq = bool(apps) and not other_edits(gm, name) and all(h is not None and h[0] is homes[0][0] for h in homes)
             if okq:
                 ql, qp = homes[0]
 
                 def is_ce(e, n, qp=qp):
                     return qp.elem_role(seqs, e, n) == "cache"
-                okq = all(qp.elem_role(seqs, x.args[0], gm.nodes(x)[0]) == "input" for x in apps) \
-                    and exactly_on(gm, heads_of(gm, ql), gm.nodes_all(apps), absent_edges(gm, is_ce), present_edges(gm, is_ce)) \
-                    and not iteration_counts(gm, heads_of(gm, ql), gm.nodes_all(apps))[1]
+                an = gm.nodes_all(x.node for x in apps)
+                okq = all(qp.elem_role(seqs, x.elem, gm.nodes(x.node)[0]) == "input" for x in apps) \
+                    and exactly_on(gm, heads_of(gm, ql), an, absent_edges(gm, is_ce), present_edges(gm, is_ce)) \
+                    and not iteration_counts(gm, heads_of(gm, ql), an)[1]
         else:
             okq = False
     ck.ob(R1, gm.key(None, "miss-list"), okq, "the store is queried for exactly the cache misses, in order" if okq else
@@ -1085,10 +1133,7 @@ class FirstFailure:
         fa = self.fa
         if len(all_defs(fa, e.id)) != 1 or e.id in fa.df.params:
             return True
-        if any(A.dotted(A.call_recv(c)) == e.id and A.call_attr(c) in MUTATORS + ("append",) for c in fa.calls()):
-            return True
-        return any(isinstance(t, ast.Subscript) and A.dotted(t.value) == e.id for st in fa.stmts((ast.Assign, ast.AugAssign, ast.Delete))
-                   for t in (st.targets if isinstance(st, (ast.Assign, ast.Delete)) else [st.target]))
+        return bool(pushes(fa, e.id) or other_edits(fa, e.id))
 
     def value(self, e, at):
         """If `e` holds the first failing element, or None when there is none: the list of its non-None cases as
